@@ -81,6 +81,7 @@ def main():
     ap.add_argument("--workers", type=int, default=12)
     ap.add_argument("--ops", default="")
     ap.add_argument("--files", default="")
+    ap.add_argument("--bin", default=M.BIN, help="analyser binary to copy (default bin/sfntlint)")
     a = ap.parse_args()
     done = set()
     if os.path.exists(a.out):
@@ -104,7 +105,7 @@ def main():
     print("mutants to run:", n, flush=True)
     # private copy of the analyser so that rebuilding /verif/bin does not disturb the sweep
     binpath = os.path.join(os.environ.get("TMPDIR", "/tmp"), "sfntlint-sweep-%d" % os.getpid())
-    shutil.copy2(M.BIN, binpath)
+    shutil.copy2(a.bin, binpath)
     lock = threading.Lock()
     with open(a.out, "a") as outfh:
         ts = [threading.Thread(target=worker, args=(i, q, outfh, lock, binpath)) for i in range(a.workers)]
